@@ -946,8 +946,12 @@ func genC18(c *Ctx) {
 		}
 		c.Emit("c18.analyze", c18AnalyzeCase(text, ea, ec))
 	}
+	// histories on one server (caches must not be observable)
+	for i := 0; i < c.N(700, 12000); i++ {
+		genC18Hist(c)
+	}
 	// server level
-	for i := 0; i < c.N(500, 4000); i++ {
+	for i := 0; i < c.N(350, 4000); i++ {
 		ws := c18Workspace(c)
 		c.Count(fmt.Sprintf("ws.files%d", len(ws.Files)))
 		for _, f := range ws.Files {
